@@ -85,6 +85,8 @@ struct Config {
     Session resume;              // client: offer this session id; server: accept it when the client offers it
     bool offer_ticket_ext = false; // client: send an empty session_ticket extension
     bool ack_ticket_ext = false;   // server: acknowledge session_ticket (then NewSessionTicket is a legal message)
+    Bytes master_override;         // 48 bytes: use this master secret wherever the puppet would take the resumed session's secret (or, lacking any key exchange,
+                                   // derive one from an empty premaster) - "wrong session secret" deviations; a ClientKeyExchange still computes the real one
     std::vector<uint16_t> extra_suites; // client: offered in addition to `suite` (after it)
     int server_suite_override = -1;     // server: put this suite in ServerHello regardless of the offer (C07); keys still follow `suite`
 };
@@ -121,6 +123,8 @@ public:
     const std::string &error() const;            // first receive-side problem ("" = none): undecryptable record, malformed message...
     uint16_t peer_suite() const;                 // server role: 0; client role: suite in ServerHello
     const std::vector<uint16_t> &offered_suites() const; // server role: the ClientHello list
+    const Bytes &client_hello_session_id() const;  // server role: session id offered in the ClientHello
+    size_t client_hello_ticket_len() const;        // server role: length of the SessionTicket extension body in the ClientHello (0 = empty or absent)
     bool have_master() const;
     Bytes master_secret() const;
     const Bytes &transcript() const;             // all handshake messages sent and received so far (HelloRequest excluded)
@@ -138,7 +142,8 @@ private:
 
 // The legal flat trace the puppet sends for a configuration (no application data):
 //   client: ClientHello | [Certificate] ClientKeyExchange [CertificateVerify] CCS Finished           (resumed: ClientHello | CCS Finished)
-//   server: ServerHello Certificate [ServerKeyExchange] [CertificateRequest] ServerHelloDone | CCS Finished   (resumed: ServerHello CCS Finished)
+//   server: ServerHello Certificate [ServerKeyExchange] [CertificateRequest] ServerHelloDone | [NewSessionTicket] CCS Finished   (resumed: ServerHello CCS Finished)
+//           NewSessionTicket is included iff cfg.ack_ticket_ext (the caller knows that the client offers the SessionTicket extension)
 std::vector<Step> legal_script(const Config &cfg, bool resumed = false);
 
 // Seed the process-wide OpenSSL RAND with a deterministic generator (ephemeral EC keys, PKCS#1 padding); call once per case.
